@@ -13,7 +13,7 @@ every token table `U`.  Ingredients: C17's `run_spec` / `run_queuesInRange` / `r
 namespace SV.Consistency
 open SV.ActiveReach (toID)
 
-/-- textual copy of `SV.Sys.readC03`, Proofs/SystemSealed.lean:99 -/
+/-- textual copy of `SV.Sys.readC03`, Proofs/SystemSealed.lean:101 -/
 abbrev sysReadC03 (U : List (List (SV.Collector.Bytes × SV.C03.Tok))) (h : List (List SV.Collector.Meta)) : SV.C03.Active :=
   SV.C17Compose.viewC03 U (SV.Collector.run SV.Collector.Active.empty h).ids
     (SV.Collector.queue (SV.Collector.run SV.Collector.Active.empty h))
